@@ -1,6 +1,886 @@
-//! C40 — not implemented yet.
-use mc_core::Ctx;
+//! C40 — access controller changes need two roles or an elapsed timer.
+//!
+//! Shape H, finite reachable state space searched to a fixpoint on the real engine.
+//!
+//! Subject: a real access controller holding badge X, created with roles
+//! primary = sig(K0), recovery = sig(K1), confirmation = sig(K2) and timed recovery delay in {None, 2 min}.
+//! Actors: the four keys K0..K3 and "nobody" (only the fee payer signs). Proposals: P1 = rules (K3,K1,K2)
+//! delay Some(5); P2 = rules (K1,K0,K3) delay None; P1d = P1's rules with delay None (only ever *passed* to
+//! confirm / stop calls, never initiated, so that "the same proposal" is tested on the delay alone).
+//! Actions: every method of the blueprint x every actor (so every role the template allows *and* every
+//! role / outsider it does not), proposal-taking methods x proposals, a direct `set_role` on the controller's
+//! role assignment, and time steps of +1 / +2 minutes (consensus round updates).
+//!
+//! Reference (ghost state, kept by the harness from the history, never read from the engine):
+//! current rules, pending recovery proposal per proposer (with `allowed_after` for the recovery role's timed
+//! proposal = time of initiation + configured delay), pending badge-withdraw attempt per proposer, primary
+//! locked flag, whether X is still inside, the harness clock. A pending item is created by a successful
+//! initiate call of an actor holding the proposer's role, removed by a successful cancel, all pending items are
+//! consumed by a confirmed recovery / withdrawal (which also unlocks primary — the documented reset);
+//! `stop_timed_recovery` makes the recovery role's proposal untimed.
+//!
+//! Transition invariants (the property statement + the role table of DESIGN Appendix A.2):
+//!  I1  the three role rules change, or X leaves the controller, ONLY on a successful
+//!        * quick_confirm_<A>_recovery(P) by an actor holding a role the template allows for it (never A's own
+//!          role) while A's pending proposal equals P exactly           -> afterwards rules == P.rules, X stays;
+//!        * timed_confirm_recovery(P) while the recovery role's pending *timed* proposal equals P and
+//!          now >= allowed_after (submitter is informational)            -> afterwards rules == P.rules, X stays;
+//!        * quick_confirm_<A>_badge_withdraw by an allowed role while A's withdraw attempt is pending
+//!                                                                       -> X leaves; rules unchanged or all DenyAll.
+//!  I2  while primary is locked (ghost), `create_proof` never succeeds.
+//!  I3  initiate_* and quick_confirm_* never succeed for an actor that holds none of the allowed roles.
+//! Everything else (who may cancel/lock/stop/mint/use the fee vault, what the proposed delay does, events) is
+//! informational.
+use crate::util::*;
+use mc_core::{bfs, BfsStats, Ctx, Level, Machine};
+use mc_ledger::*;
+use radix_engine::blueprints::access_controller::latest::*;
+use radix_engine::object_modules::role_assignment::*;
+use radix_engine::system::system_db_reader::{ObjectCollectionKey, SystemDatabaseReader};
+use serde_json::json;
 
-pub fn run(_ctx: Ctx) -> ! {
-    mc_core::machinery_error("C40: not implemented")
+// ------------------------------------------------------------------------------------------------
+// alphabets
+// ------------------------------------------------------------------------------------------------
+
+#[derive(Clone, Copy, Debug, PartialEq, Eq, PartialOrd, Ord, Hash)]
+pub enum Actor {
+    K0,
+    K1,
+    K2,
+    K3,
+    Nobody,
+}
+const ACTORS: [Actor; 5] = [Actor::K0, Actor::K1, Actor::K2, Actor::K3, Actor::Nobody];
+impl Actor {
+    fn key(&self) -> Option<u8> {
+        match self {
+            Actor::K0 => Some(0),
+            Actor::K1 => Some(1),
+            Actor::K2 => Some(2),
+            Actor::K3 => Some(3),
+            Actor::Nobody => None,
+        }
+    }
+}
+
+#[derive(Clone, Copy, Debug, PartialEq, Eq, PartialOrd, Ord, Hash)]
+pub enum Prop {
+    P1,
+    P2,
+    /// P1's rule set with another proposed delay; never initiated
+    P1d,
+}
+const INIT_PROPS: [Prop; 2] = [Prop::P1, Prop::P2];
+const CONFIRM_PROPS: [Prop; 3] = [Prop::P1, Prop::P2, Prop::P1d];
+
+/// who holds a role: a key's signature badge, or nobody (DenyAll)
+#[derive(Clone, Copy, Debug, PartialEq, Eq, PartialOrd, Ord, Hash)]
+pub enum H {
+    Key(u8),
+    Deny,
+}
+pub type Rules = [H; 3]; // primary, recovery, confirmation
+
+const R0: Rules = [H::Key(0), H::Key(1), H::Key(2)];
+const DENY: Rules = [H::Deny, H::Deny, H::Deny];
+
+impl Prop {
+    fn rules(&self) -> Rules {
+        match self {
+            Prop::P1 | Prop::P1d => [H::Key(3), H::Key(1), H::Key(2)],
+            Prop::P2 => [H::Key(1), H::Key(0), H::Key(3)],
+        }
+    }
+    fn delay(&self) -> Option<u32> {
+        match self {
+            Prop::P1 => Some(5),
+            Prop::P2 | Prop::P1d => None,
+        }
+    }
+}
+
+#[derive(Clone, Copy, Debug, PartialEq, Eq, PartialOrd, Ord, Hash)]
+pub enum Who {
+    Primary,
+    Recovery,
+}
+const WHO: [Who; 2] = [Who::Primary, Who::Recovery];
+impl Who {
+    fn ix(&self) -> usize {
+        match self {
+            Who::Primary => 0,
+            Who::Recovery => 1,
+        }
+    }
+}
+
+#[derive(Clone, Copy, Debug, PartialEq, Eq, PartialOrd, Ord, Hash)]
+pub enum Call {
+    CreateProof,
+    InitRecovery(Who, Prop),
+    InitWithdraw(Who),
+    QuickConfirmRecovery(Who, Prop),
+    QuickConfirmWithdraw(Who),
+    TimedConfirm(Prop),
+    CancelRecovery(Who),
+    CancelWithdraw(Who),
+    Lock,
+    Unlock,
+    StopTimed(Prop),
+    Mint,
+    LockFee,
+    WithdrawFee,
+    ContributeFee,
+    /// `set_role("primary", allow_all)` directly on the controller's role-assignment module
+    SetRoleDirect,
+}
+
+#[derive(Clone, Copy, Debug, PartialEq, Eq, PartialOrd, Ord, Hash)]
+pub enum Op {
+    Do(Actor, Call),
+    /// consensus round update moving the clock by this many minutes
+    Time(u8),
+}
+
+fn all_calls() -> Vec<Call> {
+    let mut v = vec![Call::CreateProof];
+    for w in WHO {
+        for p in INIT_PROPS {
+            v.push(Call::InitRecovery(w, p));
+        }
+    }
+    for w in WHO {
+        v.push(Call::InitWithdraw(w));
+    }
+    for w in WHO {
+        for p in CONFIRM_PROPS {
+            v.push(Call::QuickConfirmRecovery(w, p));
+        }
+    }
+    for w in WHO {
+        v.push(Call::QuickConfirmWithdraw(w));
+    }
+    for p in CONFIRM_PROPS {
+        v.push(Call::TimedConfirm(p));
+    }
+    for w in WHO {
+        v.push(Call::CancelRecovery(w));
+    }
+    for w in WHO {
+        v.push(Call::CancelWithdraw(w));
+    }
+    v.push(Call::Lock);
+    v.push(Call::Unlock);
+    for p in CONFIRM_PROPS {
+        v.push(Call::StopTimed(p));
+    }
+    v.extend([Call::Mint, Call::LockFee, Call::WithdrawFee, Call::ContributeFee, Call::SetRoleDirect]);
+    v
+}
+
+fn all_ops() -> Vec<Op> {
+    let mut v = vec![];
+    for c in all_calls() {
+        for a in ACTORS {
+            v.push(Op::Do(a, c));
+        }
+    }
+    v.push(Op::Time(1));
+    v.push(Op::Time(2));
+    v
+}
+
+/// Role table (DESIGN Appendix A.2, from the V2 role template): None = public. Indices into `Rules`.
+fn allowed_roles(c: &Call) -> Option<&'static [usize]> {
+    const P: usize = 0;
+    const R: usize = 1;
+    const C: usize = 2;
+    match c {
+        Call::CreateProof => Some(&[P]),
+        Call::InitRecovery(Who::Primary, _) | Call::CancelRecovery(Who::Primary) | Call::InitWithdraw(Who::Primary) | Call::CancelWithdraw(Who::Primary) => Some(&[P]),
+        Call::InitRecovery(Who::Recovery, _) | Call::CancelRecovery(Who::Recovery) | Call::InitWithdraw(Who::Recovery) | Call::CancelWithdraw(Who::Recovery) => Some(&[R]),
+        Call::Lock | Call::Unlock => Some(&[R]),
+        Call::QuickConfirmRecovery(Who::Primary, _) | Call::QuickConfirmWithdraw(Who::Primary) => Some(&[R, C]),
+        Call::QuickConfirmRecovery(Who::Recovery, _) | Call::QuickConfirmWithdraw(Who::Recovery) => Some(&[P, C]),
+        Call::Mint => Some(&[P, R]),
+        Call::StopTimed(_) | Call::LockFee => Some(&[P, R, C]),
+        Call::WithdrawFee => Some(&[P]),
+        Call::TimedConfirm(_) | Call::ContributeFee => None,
+        // role updaters are the component itself: no outside actor
+        Call::SetRoleDirect => Some(&[]),
+    }
+}
+
+fn call_kind(c: &Call) -> &'static str {
+    match c {
+        Call::CreateProof => "create_proof",
+        Call::InitRecovery(Who::Primary, _) => "initiate_recovery_as_primary",
+        Call::InitRecovery(Who::Recovery, _) => "initiate_recovery_as_recovery",
+        Call::InitWithdraw(Who::Primary) => "initiate_badge_withdraw_as_primary",
+        Call::InitWithdraw(Who::Recovery) => "initiate_badge_withdraw_as_recovery",
+        Call::QuickConfirmRecovery(Who::Primary, _) => "quick_confirm_primary_recovery",
+        Call::QuickConfirmRecovery(Who::Recovery, _) => "quick_confirm_recovery_recovery",
+        Call::QuickConfirmWithdraw(Who::Primary) => "quick_confirm_primary_withdraw",
+        Call::QuickConfirmWithdraw(Who::Recovery) => "quick_confirm_recovery_withdraw",
+        Call::TimedConfirm(_) => "timed_confirm_recovery",
+        Call::CancelRecovery(Who::Primary) => "cancel_primary_recovery",
+        Call::CancelRecovery(Who::Recovery) => "cancel_recovery_recovery",
+        Call::CancelWithdraw(Who::Primary) => "cancel_primary_withdraw",
+        Call::CancelWithdraw(Who::Recovery) => "cancel_recovery_withdraw",
+        Call::Lock => "lock_primary_role",
+        Call::Unlock => "unlock_primary_role",
+        Call::StopTimed(_) => "stop_timed_recovery",
+        Call::Mint => "mint_recovery_badges",
+        Call::LockFee => "lock_recovery_fee",
+        Call::WithdrawFee => "withdraw_recovery_fee",
+        Call::ContributeFee => "contribute_recovery_fee",
+        Call::SetRoleDirect => "role_assignment.set",
+    }
+}
+
+// ------------------------------------------------------------------------------------------------
+// ghost state (reference)
+// ------------------------------------------------------------------------------------------------
+
+#[derive(Clone, Debug, PartialEq, Eq)]
+pub struct Pending {
+    pub prop: Prop,
+    /// Some(t): timed, confirmable by time once clock >= t (harness minutes)
+    pub allowed_after: Option<i64>,
+}
+
+#[derive(Clone, Debug, PartialEq, Eq)]
+pub struct Ghost {
+    pub rules: Rules,
+    pub locked: bool,
+    pub rec: [Option<Pending>; 2],
+    pub wd: [bool; 2],
+    pub held: bool,
+    pub now: i64,
+    pub delay: Option<u32>,
+}
+
+impl Ghost {
+    fn new(delay: Option<u32>) -> Self {
+        Ghost { rules: R0, locked: false, rec: [None, None], wd: [false, false], held: true, now: 0, delay }
+    }
+    fn holds(&self, a: Actor, role: usize) -> bool {
+        match (a.key(), self.rules[role]) {
+            (Some(k), H::Key(h)) => k == h,
+            _ => false,
+        }
+    }
+    fn auth_ok(&self, a: Actor, c: &Call) -> bool {
+        match allowed_roles(c) {
+            None => true,
+            Some(rs) => rs.iter().any(|r| self.holds(a, *r)),
+        }
+    }
+    fn consume_all(&mut self) {
+        self.rec = [None, None];
+        self.wd = [false, false];
+        self.locked = false;
+    }
+    /// time-translation invariant rendering (absolute clock replaced by the timer relation)
+    fn canon(&self) -> String {
+        let rel = |p: &Option<Pending>| p.as_ref().map(|p| (p.prop, p.allowed_after.map(|t| (self.now - t).clamp(-64, 1))));
+        format!("{:?}|{}|{:?}|{:?}|{:?}|{}|{:?}", self.rules, self.locked, rel(&self.rec[0]), rel(&self.rec[1]), self.wd, self.held, self.delay)
+    }
+}
+
+// ------------------------------------------------------------------------------------------------
+// world
+// ------------------------------------------------------------------------------------------------
+
+#[derive(Clone, Copy, Debug, PartialEq, Eq)]
+pub enum Proto {
+    Latest,
+    /// pre-bottlenose: the V1 access controller code
+    Anemone,
+}
+
+#[allow(dead_code)]
+pub struct Ac {
+    pub root: Snap,
+    pub f: ComponentAddress,
+    pub sig_f: NonFungibleGlobalId,
+    pub sigs: Vec<NonFungibleGlobalId>,
+    pub ac: ComponentAddress,
+    pub x: ResourceAddress,
+    pub delay: Option<u32>,
+    pub proto: Proto,
+}
+
+pub struct St {
+    pub sim: Sim,
+    pub ghost: Ghost,
+    pub view: View,
+    pub fp: Vec<u8>,
+}
+
+/// The property-relevant part of the real controller, read back from the database.
+#[derive(Clone, Debug, PartialEq, Eq)]
+pub struct View {
+    pub locked: bool,
+    pub p_rec: Option<String>,
+    pub p_wd: bool,
+    /// (proposal, Some(now - allowed_after in minutes, clamped) if timed)
+    pub r_rec: Option<(String, Option<i64>)>,
+    pub r_wd: bool,
+    pub delay: Option<u32>,
+    pub fee_vault: bool,
+    pub rules: [Option<AccessRule>; 3],
+    pub held: Decimal,
+}
+
+impl Ac {
+    fn rule_of(&self, h: H) -> AccessRule {
+        match h {
+            H::Key(k) => rule!(require(self.sigs[k as usize].clone())),
+            H::Deny => AccessRule::DenyAll,
+        }
+    }
+    fn rule_set(&self, r: Rules) -> RuleSet {
+        RuleSet { primary_role: self.rule_of(r[0]), recovery_role: self.rule_of(r[1]), confirmation_role: self.rule_of(r[2]) }
+    }
+    fn proposal(&self, p: Prop) -> RecoveryProposal {
+        RecoveryProposal { rule_set: self.rule_set(p.rules()), timed_recovery_delay_in_minutes: p.delay() }
+    }
+    fn rules_view(&self, r: Rules) -> [Option<AccessRule>; 3] {
+        [Some(self.rule_of(r[0])), Some(self.rule_of(r[1])), Some(self.rule_of(r[2]))]
+    }
+
+    pub fn build(delay: Option<u32>, proto: Proto) -> Ac {
+        let mut sim: Sim = match proto {
+            Proto::Latest => new_sim(),
+            Proto::Anemone => LedgerSimulatorBuilder::new().with_custom_protocol(|b| b.from_bootstrap_to(ProtocolVersion::Anemone)).without_kernel_trace().build(),
+        };
+        let (pk_f, _, f) = sim.new_account(true);
+        let sig_f = NonFungibleGlobalId::from_public_key(&pk_f);
+        let sigs: Vec<NonFungibleGlobalId> = (0..4).map(|_| NonFungibleGlobalId::from_public_key(&sim.new_key_pair().0)).collect();
+        let x = sim.create_fungible_resource(dec!(1), 0, f);
+        let rule = |i: usize| rule!(require(sigs[i].clone()));
+        let m = ManifestBuilder::new()
+            .lock_fee(f, dec!(50))
+            .withdraw_from_account(f, x, dec!(1))
+            .take_all_from_worktop(x, "asset")
+            .create_access_controller("asset", rule(0), rule(1), rule(2), delay)
+            .build();
+        let r = sim.execute_manifest(m, vec![sig_f.clone()]);
+        let ac = r.expect_commit_success().new_component_addresses()[0];
+        // minute-aligned clock
+        let cur = sim.get_current_proposer_timestamp_ms();
+        let aligned = (cur.div_euclid(60_000) + 1) * 60_000;
+        let round = sim.get_consensus_manager_state().round.number() + 1;
+        sim.advance_to_round_at_timestamp(Round::of(round), aligned).expect_commit_success();
+        Ac { root: sim.create_snapshot(), f, sig_f, sigs, ac, x, delay, proto }
+    }
+
+    fn view(&self, sim: &mut Sim) -> Result<View, String> {
+        let now_ms = sim.get_current_proposer_timestamp_ms();
+        let node = *self.ac.as_node_id();
+        let (st, rules) = {
+            let reader = SystemDatabaseReader::new(sim.substate_db());
+            let st: AccessControllerV2Substate = reader
+                .read_typed_object_field::<AccessControllerV2StateFieldPayload>(&node, ModuleId::Main, AccessControllerV2Field::State.field_index())
+                .map_err(|e| format!("controller state unreadable: {e:?}"))?
+                .fully_update_and_into_latest_version();
+            let mut rules: [Option<AccessRule>; 3] = [None, None, None];
+            for (i, name) in ["primary", "recovery", "confirmation"].iter().enumerate() {
+                let key = ModuleRoleKey::new(ModuleId::Main, RoleKey::new(*name));
+                let e: Option<RoleAssignmentAccessRuleEntryPayload> = reader
+                    .read_object_collection_entry(&node, ModuleId::RoleAssignment, ObjectCollectionKey::KeyValue(RoleAssignmentCollection::AccessRuleKeyValue.collection_index(), &key))
+                    .map_err(|e| format!("role {name} unreadable: {e:?}"))?;
+                rules[i] = e.map(|p| p.fully_update_and_into_latest_version());
+            }
+            (st, rules)
+        };
+        let held = vault_holding(sim, *st.controlled_asset.0.as_node_id()).amount;
+        let now_min = now_ms.div_euclid(60_000);
+        let r_rec = match &st.state.3 {
+            RecoveryRoleRecoveryAttemptState::NoRecoveryAttempt => None,
+            RecoveryRoleRecoveryAttemptState::RecoveryAttempt(RecoveryRoleRecoveryState::UntimedRecovery(p)) => Some((format!("{p:?}"), None)),
+            RecoveryRoleRecoveryAttemptState::RecoveryAttempt(RecoveryRoleRecoveryState::TimedRecovery { proposal, timed_recovery_allowed_after }) => {
+                let after_min = timed_recovery_allowed_after.seconds_since_unix_epoch.div_euclid(60);
+                Some((format!("{proposal:?}"), Some((now_min - after_min).clamp(-64, 1))))
+            }
+        };
+        Ok(View {
+            locked: st.state.0 == PrimaryRoleLockingState::Locked,
+            p_rec: match &st.state.1 {
+                PrimaryRoleRecoveryAttemptState::NoRecoveryAttempt => None,
+                PrimaryRoleRecoveryAttemptState::RecoveryAttempt(p) => Some(format!("{p:?}")),
+            },
+            p_wd: st.state.2 == PrimaryRoleBadgeWithdrawAttemptState::BadgeWithdrawAttempt,
+            r_rec,
+            r_wd: st.state.4 == RecoveryRoleBadgeWithdrawAttemptState::BadgeWithdrawAttempt,
+            delay: st.timed_recovery_delay_in_minutes,
+            fee_vault: st.xrd_fee_vault.is_some(),
+            rules,
+            held,
+        })
+    }
+
+    fn manifest(&self, a: Actor, c: &Call) -> (TransactionManifestV1, Vec<NonFungibleGlobalId>) {
+        let ac = self.ac;
+        let mut mb = ManifestBuilder::new().lock_fee(self.f, dec!(50));
+        let rs = |p: &Prop| self.rule_set(p.rules());
+        mb = match c {
+            Call::CreateProof => mb.call_method(ac, ACCESS_CONTROLLER_CREATE_PROOF_IDENT, AccessControllerCreateProofInput {}).pop_from_auth_zone("created_proof"),
+            Call::InitRecovery(Who::Primary, p) => mb.call_method(
+                ac,
+                ACCESS_CONTROLLER_INITIATE_RECOVERY_AS_PRIMARY_IDENT,
+                AccessControllerInitiateRecoveryAsPrimaryInput { rule_set: rs(p), timed_recovery_delay_in_minutes: p.delay() },
+            ),
+            Call::InitRecovery(Who::Recovery, p) => mb.call_method(
+                ac,
+                ACCESS_CONTROLLER_INITIATE_RECOVERY_AS_RECOVERY_IDENT,
+                AccessControllerInitiateRecoveryAsRecoveryInput { rule_set: rs(p), timed_recovery_delay_in_minutes: p.delay() },
+            ),
+            Call::InitWithdraw(Who::Primary) => mb.call_method(ac, ACCESS_CONTROLLER_INITIATE_BADGE_WITHDRAW_ATTEMPT_AS_PRIMARY_IDENT, AccessControllerInitiateBadgeWithdrawAttemptAsPrimaryInput {}),
+            Call::InitWithdraw(Who::Recovery) => mb.call_method(ac, ACCESS_CONTROLLER_INITIATE_BADGE_WITHDRAW_ATTEMPT_AS_RECOVERY_IDENT, AccessControllerInitiateBadgeWithdrawAttemptAsRecoveryInput {}),
+            Call::QuickConfirmRecovery(Who::Primary, p) => mb.call_method(
+                ac,
+                ACCESS_CONTROLLER_QUICK_CONFIRM_PRIMARY_ROLE_RECOVERY_PROPOSAL_IDENT,
+                AccessControllerQuickConfirmPrimaryRoleRecoveryProposalInput { rule_set: rs(p), timed_recovery_delay_in_minutes: p.delay() },
+            ),
+            Call::QuickConfirmRecovery(Who::Recovery, p) => mb.call_method(
+                ac,
+                ACCESS_CONTROLLER_QUICK_CONFIRM_RECOVERY_ROLE_RECOVERY_PROPOSAL_IDENT,
+                AccessControllerQuickConfirmRecoveryRoleRecoveryProposalInput { rule_set: rs(p), timed_recovery_delay_in_minutes: p.delay() },
+            ),
+            Call::QuickConfirmWithdraw(Who::Primary) => mb.call_method(ac, ACCESS_CONTROLLER_QUICK_CONFIRM_PRIMARY_ROLE_BADGE_WITHDRAW_ATTEMPT_IDENT, AccessControllerQuickConfirmPrimaryRoleBadgeWithdrawAttemptInput {}),
+            Call::QuickConfirmWithdraw(Who::Recovery) => mb.call_method(ac, ACCESS_CONTROLLER_QUICK_CONFIRM_RECOVERY_ROLE_BADGE_WITHDRAW_ATTEMPT_IDENT, AccessControllerQuickConfirmRecoveryRoleBadgeWithdrawAttemptInput {}),
+            Call::TimedConfirm(p) => mb.call_method(
+                ac,
+                ACCESS_CONTROLLER_TIMED_CONFIRM_RECOVERY_IDENT,
+                AccessControllerTimedConfirmRecoveryInput { rule_set: rs(p), timed_recovery_delay_in_minutes: p.delay() },
+            ),
+            Call::CancelRecovery(Who::Primary) => mb.call_method(ac, ACCESS_CONTROLLER_CANCEL_PRIMARY_ROLE_RECOVERY_PROPOSAL_IDENT, AccessControllerCancelPrimaryRoleRecoveryProposalInput {}),
+            Call::CancelRecovery(Who::Recovery) => mb.call_method(ac, ACCESS_CONTROLLER_CANCEL_RECOVERY_ROLE_RECOVERY_PROPOSAL_IDENT, AccessControllerCancelRecoveryRoleRecoveryProposalInput {}),
+            Call::CancelWithdraw(Who::Primary) => mb.call_method(ac, ACCESS_CONTROLLER_CANCEL_PRIMARY_ROLE_BADGE_WITHDRAW_ATTEMPT_IDENT, AccessControllerCancelPrimaryRoleBadgeWithdrawAttemptInput {}),
+            Call::CancelWithdraw(Who::Recovery) => mb.call_method(ac, ACCESS_CONTROLLER_CANCEL_RECOVERY_ROLE_BADGE_WITHDRAW_ATTEMPT_IDENT, AccessControllerCancelRecoveryRoleBadgeWithdrawAttemptInput {}),
+            Call::Lock => mb.call_method(ac, ACCESS_CONTROLLER_LOCK_PRIMARY_ROLE_IDENT, AccessControllerLockPrimaryRoleInput {}),
+            Call::Unlock => mb.call_method(ac, ACCESS_CONTROLLER_UNLOCK_PRIMARY_ROLE_IDENT, AccessControllerUnlockPrimaryRoleInput {}),
+            Call::StopTimed(p) => mb.call_method(
+                ac,
+                ACCESS_CONTROLLER_STOP_TIMED_RECOVERY_IDENT,
+                AccessControllerStopTimedRecoveryInput { rule_set: rs(p), timed_recovery_delay_in_minutes: p.delay() },
+            ),
+            Call::Mint => mb.call_method(
+                ac,
+                ACCESS_CONTROLLER_MINT_RECOVERY_BADGES_IDENT,
+                AccessControllerMintRecoveryBadgesInput { non_fungible_local_ids: indexset!(NonFungibleLocalId::integer(1)) },
+            ),
+            Call::LockFee => mb.call_method(ac, ACCESS_CONTROLLER_LOCK_RECOVERY_FEE_IDENT, AccessControllerLockRecoveryFeeInput { amount: dec!(1) }),
+            Call::WithdrawFee => mb.call_method(ac, ACCESS_CONTROLLER_WITHDRAW_RECOVERY_FEE_IDENT, AccessControllerWithdrawRecoveryFeeInput { amount: dec!(1) }),
+            Call::ContributeFee => mb
+                .withdraw_from_account(self.f, XRD, dec!(10))
+                .take_all_from_worktop(XRD, "fee_xrd")
+                .call_method_with_name_lookup(ac, ACCESS_CONTROLLER_CONTRIBUTE_RECOVERY_FEE_IDENT, |l| (l.bucket("fee_xrd"),)),
+            Call::SetRoleDirect => mb.set_role(ac, ModuleId::Main, RoleKey::new("primary"), AccessRule::AllowAll),
+        };
+        mb = mb.try_deposit_entire_worktop_or_abort(self.f, None);
+        let mut proofs = vec![self.sig_f.clone()];
+        if let Some(k) = a.key() {
+            proofs.push(self.sigs[k as usize].clone());
+        }
+        (mb.build(), proofs)
+    }
+
+    fn compute_fp(&self, st: &St) -> Vec<u8> {
+        mc_core::fp128(format!("{:?}#{}", st.view, st.ghost.canon()).as_bytes())
+    }
+}
+
+fn outcome_kind(r: &TransactionReceipt) -> &'static str {
+    if is_success(r) {
+        return "ok";
+    }
+    let t = failure_text(r);
+    if t.contains("Unauthorized") {
+        "denied"
+    } else if t.contains("AccessControllerError") {
+        "refused"
+    } else {
+        "failed-otherwise"
+    }
+}
+
+impl Machine for Ac {
+    type Op = Op;
+    type St = St;
+
+    fn init(&self) -> St {
+        let mut sim = sim_from(&self.root);
+        let view = self.view(&mut sim).unwrap_or_else(|e| mc_core::machinery_error(&format!("root view: {e}")));
+        let mut st = St { sim, ghost: Ghost::new(self.delay), view, fp: vec![] };
+        st.fp = self.compute_fp(&st);
+        st
+    }
+
+    fn ops(&self, _st: &St, _depth: usize) -> Vec<Op> {
+        all_ops()
+    }
+
+    fn fork(&self, st: &St) -> Option<St> {
+        Some(St { sim: sim_from(&st.sim.create_snapshot()), ghost: st.ghost.clone(), view: st.view.clone(), fp: st.fp.clone() })
+    }
+
+    fn fingerprint(&self, st: &St) -> Vec<u8> {
+        st.fp.clone()
+    }
+
+    fn step(&self, st: &mut St, op: &Op) -> Result<String, (String, String)> {
+        let pre = st.view.clone();
+        let g = st.ghost.clone();
+        let (a, c) = match op {
+            Op::Time(k) => {
+                let r = mc_core::catch(|| {
+                    let cur = st.sim.get_current_proposer_timestamp_ms();
+                    let round = st.sim.get_consensus_manager_state().round.number() + 1;
+                    st.sim.advance_to_round_at_timestamp(Round::of(round), cur + (*k as i64) * 60_000)
+                });
+                let r = match r {
+                    Ok(r) => r,
+                    Err(p) => return Err((format!("panic@{}", mc_core::last_panic_location()), format!("round update panicked: {p}"))),
+                };
+                if !is_success(&r) {
+                    mc_core::machinery_error(&format!("round update failed: {}", failure_text(&r)));
+                }
+                st.ghost.now += *k as i64;
+                let post = self.view(&mut st.sim).map_err(|e| ("state-unreadable".to_string(), e))?;
+                // time alone never changes rules / custody / pending items (only the timer relation)
+                let mut a = pre.clone();
+                let mut b = post.clone();
+                if let Some((_, t)) = &mut a.r_rec {
+                    *t = None;
+                }
+                if let Some((_, t)) = &mut b.r_rec {
+                    *t = None;
+                }
+                if a != b {
+                    return Err(("time-step-changed-controller".into(), format!("a round update changed the controller: {pre:?} -> {post:?}")));
+                }
+                st.view = post;
+                st.fp = self.compute_fp(st);
+                return Ok("time-step".into());
+            }
+            Op::Do(a, c) => (*a, *c),
+        };
+        let (m, proofs) = self.manifest(a, &c);
+        let receipt = match exec(&mut st.sim, m, proofs) {
+            Ok(r) => r,
+            Err(p) => return Err((format!("panic@{}", mc_core::last_panic_location()), format!("{op:?} panicked: {p}"))),
+        };
+        if !matches!(receipt.result, TransactionResult::Commit(_)) {
+            mc_core::machinery_error(&format!("harness transaction {op:?} not committed: {}", failure_text(&receipt)));
+        }
+        let ok = is_success(&receipt);
+        let kind = call_kind(&c);
+        let post = self.view(&mut st.sim).map_err(|e| ("state-unreadable".to_string(), e))?;
+        let auth_ok = g.auth_ok(a, &c);
+        let describe = |why: &str| format!("{op:?}: {why}; ghost before = {g:?}; controller before = {pre:?}; after = {post:?}; receipt = {} {}", receipt_class(&receipt), mc_core::truncate(&failure_text(&receipt), 200));
+
+        // ---- I1: rules / custody change only when justified ----
+        let rules_changed = post.rules != pre.rules;
+        let left = post.held < pre.held;
+        let gained = post.held > pre.held;
+        if gained {
+            return Err((format!("custody-grew:{kind}"), describe("the controlled vault grew")));
+        }
+        let mut confirmed: Option<&'static str> = None;
+        if rules_changed || left {
+            let why_not: Option<String> = if !ok {
+                Some("transaction failed".into())
+            } else {
+                match &c {
+                    Call::QuickConfirmRecovery(w, p) => {
+                        if !auth_ok {
+                            Some("actor holds no role allowed to confirm".into())
+                        } else {
+                            match &g.rec[w.ix()] {
+                                None => Some("no pending proposal of that proposer".into()),
+                                Some(pe) if pe.prop != *p => Some(format!("pending proposal is {:?}, confirmed {:?}", pe.prop, p)),
+                                Some(_) => None,
+                            }
+                        }
+                    }
+                    Call::TimedConfirm(p) => match &g.rec[1] {
+                        None => Some("no pending proposal of the recovery role".into()),
+                        Some(pe) if pe.prop != *p => Some(format!("pending proposal is {:?}, confirmed {:?}", pe.prop, p)),
+                        Some(Pending { allowed_after: None, .. }) => Some("the recovery role's proposal is not timed (no delay configured or timer stopped)".into()),
+                        Some(Pending { allowed_after: Some(t), .. }) if g.now < *t => Some(format!("delay not elapsed: now {} < allowed after {}", g.now, t)),
+                        Some(_) => None,
+                    },
+                    Call::QuickConfirmWithdraw(w) => {
+                        if !auth_ok {
+                            Some("actor holds no role allowed to confirm".into())
+                        } else if !g.wd[w.ix()] {
+                            Some("no pending badge withdraw attempt of that proposer".into())
+                        } else {
+                            None
+                        }
+                    }
+                    _ => Some("not a confirmation".into()),
+                }
+            };
+            if let Some(w) = why_not {
+                let what = if left { "asset-left" } else { "rules-changed" };
+                return Err((format!("unjustified:{what}:{kind}"), describe(&format!("rules changed = {rules_changed}, asset left = {left}, but: {w}"))));
+            }
+            // effect must be exactly the confirmed change
+            match &c {
+                Call::QuickConfirmRecovery(_, p) | Call::TimedConfirm(p) => {
+                    if left || post.rules != self.rules_view(p.rules()) {
+                        return Err((format!("confirm-effect:{kind}"), describe("after a confirmed recovery the rules must equal the proposal and the asset must stay")));
+                    }
+                    confirmed = Some("recovery");
+                }
+                Call::QuickConfirmWithdraw(_) => {
+                    if rules_changed && post.rules != self.rules_view(DENY) {
+                        return Err((format!("confirm-effect:{kind}"), describe("a confirmed badge withdrawal replaced the rules by something other than DenyAll")));
+                    }
+                    if !left || !post.held.is_zero() {
+                        return Err((format!("confirm-effect:{kind}"), describe("a confirmed badge withdrawal changed the rules without releasing the whole asset")));
+                    }
+                    confirmed = Some("withdraw");
+                }
+                _ => unreachable!(),
+            }
+        }
+        // ---- I2: no proof while primary is locked ----
+        if matches!(c, Call::CreateProof) && ok && g.locked {
+            return Err(("proof-while-locked".into(), describe("create_proof succeeded while the primary role is locked")));
+        }
+        // ---- I3: proposals and confirmations only by holders of an allowed role ----
+        if ok && !auth_ok && matches!(c, Call::InitRecovery(..) | Call::InitWithdraw(_) | Call::QuickConfirmRecovery(..) | Call::QuickConfirmWithdraw(_)) {
+            return Err((format!("unauthorized-success:{kind}"), describe("succeeded although the actor holds none of the roles the template allows")));
+        }
+
+        // ---- ghost update (follows the observed outcome where the statement is silent) ----
+        let gh = &mut st.ghost;
+        let mut infos: Vec<String> = vec![];
+        if ok && !auth_ok {
+            infos.push(format!("unauthorized-success:{kind}"));
+        }
+        if ok {
+            match &c {
+                Call::InitRecovery(w, p) => {
+                    if gh.rec[w.ix()].is_some() {
+                        infos.push("initiate replaced a pending proposal".into());
+                    }
+                    let timed = if *w == Who::Recovery { gh.delay.map(|d| gh.now + d as i64) } else { None };
+                    gh.rec[w.ix()] = Some(Pending { prop: *p, allowed_after: timed });
+                }
+                Call::InitWithdraw(w) => gh.wd[w.ix()] = true,
+                Call::CancelRecovery(w) => gh.rec[w.ix()] = None,
+                Call::CancelWithdraw(w) => gh.wd[w.ix()] = false,
+                Call::Lock => gh.locked = true,
+                Call::Unlock => gh.locked = false,
+                Call::StopTimed(_) => {
+                    if let Some(p) = &mut gh.rec[1] {
+                        p.allowed_after = None;
+                    }
+                }
+                Call::QuickConfirmRecovery(_, p) | Call::TimedConfirm(p) => {
+                    if confirmed.is_some() {
+                        gh.rules = p.rules();
+                        gh.consume_all();
+                    } else {
+                        // succeeded without visible change (only possible when proposal == current rules)
+                        let justified_pending = match &c {
+                            Call::QuickConfirmRecovery(w, p) => g.rec[w.ix()].as_ref().map(|x| x.prop == *p).unwrap_or(false),
+                            Call::TimedConfirm(p) => g.rec[1].as_ref().map(|x| x.prop == *p && x.allowed_after.map(|t| g.now >= t).unwrap_or(false)).unwrap_or(false),
+                            _ => false,
+                        };
+                        if justified_pending && post.rules == self.rules_view(p.rules()) {
+                            gh.rules = p.rules();
+                            gh.consume_all();
+                            infos.push("confirmation of a proposal equal to the current rules".into());
+                        } else {
+                            return Err((format!("confirm-without-effect:{kind}"), describe("a confirmation succeeded but neither changed the rules nor was it justified")));
+                        }
+                    }
+                }
+                Call::QuickConfirmWithdraw(_) => {
+                    if confirmed.is_some() {
+                        gh.held = false;
+                        if post.rules == self.rules_view(DENY) {
+                            gh.rules = DENY;
+                            infos.push("badge withdrawal sets all roles to DenyAll".into());
+                        } else {
+                            infos.push("badge withdrawal leaves the rules".into());
+                        }
+                        gh.consume_all();
+                    } else {
+                        return Err((format!("confirm-without-effect:{kind}"), describe("a badge-withdraw confirmation succeeded but the asset did not leave")));
+                    }
+                }
+                _ => {}
+            }
+        }
+        if matches!(c, Call::TimedConfirm(_)) && confirmed.is_some() {
+            infos.push(format!("timed confirmation submitted by {}", match a {
+                Actor::Nobody => "an outsider",
+                _ if g.holds(a, 1) => "the recovery role",
+                _ if g.holds(a, 0) || g.holds(a, 2) => "another role",
+                _ => "a key without role",
+            }));
+        }
+        // ghost / controller agreement (expected to be silent; informational because the statement does not
+        // define the controller's internal bookkeeping)
+        let g2 = &st.ghost;
+        if g2.locked != post.locked {
+            infos.push("ghost/controller differ: locked".into());
+        }
+        if g2.rec[0].is_some() != post.p_rec.is_some() || g2.rec[1].is_some() != post.r_rec.is_some() {
+            infos.push("ghost/controller differ: pending recovery".into());
+        }
+        if g2.wd != [post.p_wd, post.r_wd] {
+            infos.push("ghost/controller differ: pending withdraw".into());
+        }
+        if self.rules_view(g2.rules) != post.rules {
+            return Err(("ghost-rules-diverged".into(), describe("harness ghost rules differ from the controller's rules without a flagged transition")));
+        }
+        if post.delay != pre.delay {
+            infos.push("configured delay changed".into());
+        }
+        st.view = post;
+        st.fp = self.compute_fp(st);
+        let authl = if allowed_roles(&c).is_none() {
+            "public"
+        } else if auth_ok {
+            "role-ok"
+        } else {
+            "no-role"
+        };
+        let mut class = format!("{kind}:{authl}:{}", outcome_kind(&receipt));
+        if let Some(cf) = confirmed {
+            class.push_str(&format!(":confirmed-{cf}"));
+        }
+        for i in infos {
+            INFOS.with(|v| v.borrow_mut().push(i));
+        }
+        Ok(class)
+    }
+}
+
+thread_local! {
+    static INFOS: std::cell::RefCell<Vec<String>> = std::cell::RefCell::new(vec![]);
+}
+
+/// Wrapper that forwards to `Ac` and collects the informational notes of every step. The explorer replays
+/// histories to rebuild states, so notes are de-duplicated by (state fingerprint before the step, op): the
+/// reported number is the number of distinct explored transitions carrying the note.
+struct WithInfos<'a> {
+    m: &'a Ac,
+    infos: std::sync::Mutex<std::collections::BTreeMap<String, std::collections::HashSet<(Vec<u8>, Op)>>>,
+}
+
+impl<'a> Machine for WithInfos<'a> {
+    type Op = Op;
+    type St = St;
+    fn init(&self) -> St {
+        self.m.init()
+    }
+    fn ops(&self, st: &St, depth: usize) -> Vec<Op> {
+        self.m.ops(st, depth)
+    }
+    fn fork(&self, st: &St) -> Option<St> {
+        self.m.fork(st)
+    }
+    fn fingerprint(&self, st: &St) -> Vec<u8> {
+        self.m.fingerprint(st)
+    }
+    fn step(&self, st: &mut St, op: &Op) -> Result<String, (String, String)> {
+        INFOS.with(|v| v.borrow_mut().clear());
+        let before = st.fp.clone();
+        let r = self.m.step(st, op);
+        let notes: Vec<String> = INFOS.with(|v| v.borrow_mut().drain(..).collect());
+        if !notes.is_empty() {
+            let mut g = self.infos.lock().unwrap();
+            for n in notes {
+                g.entry(n).or_default().insert((before.clone(), *op));
+            }
+        }
+        r
+    }
+}
+
+fn explore(ctx: &Ctx, m: &Ac, tag: &str, depth: usize, wall: f64) -> BfsStats {
+    let wi = WithInfos { m, infos: std::sync::Mutex::new(Default::default()) };
+    let stats = bfs(ctx, &wi, tag, depth, 1_000_000, wall);
+    for (k, set) in wi.infos.into_inner().unwrap() {
+        ctx.info(&format!("[{tag}] {k}"), set.len() as u64);
+    }
+    stats
+}
+
+fn parse_op(s: &str) -> Op {
+    all_ops().into_iter().find(|o| format!("{o:?}") == s).unwrap_or_else(|| mc_core::machinery_error(&format!("unknown op {s}")))
+}
+
+pub fn run(ctx: Ctx) -> ! {
+    if let Some(case) = ctx.read_replay_case() {
+        let base = case["base"].as_str().unwrap_or("v2-delay2").to_string();
+        let (delay, proto) = match base.as_str() {
+            "v2-delay2" => (Some(2), Proto::Latest),
+            "v2-nodelay" => (None, Proto::Latest),
+            "v1-delay2" => (Some(2), Proto::Anemone),
+            other => mc_core::machinery_error(&format!("unknown base {other}")),
+        };
+        let m = Ac::build(delay, proto);
+        let mut st = m.init();
+        println!("base {base}: controller {:?}", st.view);
+        let hist: Vec<Op> = case["history"].as_array().map(|a| a.iter().filter_map(|s| s.as_str()).map(parse_op).collect()).unwrap_or_default();
+        for op in &hist {
+            match m.step(&mut st, op) {
+                Ok(class) => println!("{op:?} -> {class}\n    controller: {:?}\n    ghost: {:?}", st.view, st.ghost),
+                Err((k, w)) => {
+                    println!("{op:?} -> VIOLATION {k}: {w}");
+                    ctx.violation(k, w, case.clone());
+                    break;
+                }
+            }
+        }
+        ctx.finish(Level::ModelChecking, "replay", 0, false, Default::default(), &[]);
+    }
+    let quick = ctx.quick();
+    // (tag, delay, protocol, max depth, wall cap)
+    let plan: Vec<(&str, Option<u32>, Proto, usize, f64)> = if quick {
+        vec![("v2-delay2", Some(2), Proto::Latest, 4, 40.0), ("v2-nodelay", None, Proto::Latest, 2, 10.0)]
+    } else {
+        vec![("v2-delay2", Some(2), Proto::Latest, 64, 700.0), ("v2-nodelay", None, Proto::Latest, 64, 250.0), ("v1-delay2", Some(2), Proto::Anemone, 64, 250.0)]
+    };
+    let mut total = BfsStats::default();
+    let mut per = vec![];
+    let mut fix_all = true;
+    for (tag, delay, proto, depth, wall) in plan {
+        let m = Ac::build(delay, proto);
+        let s = explore(&ctx, &m, tag, depth, wall);
+        let fix = !s.capped && s.per_depth_states.last() == Some(&0);
+        fix_all &= fix;
+        per.push(json!({"base": tag, "states": s.states, "transitions": s.transitions, "max_depth": s.max_depth, "fixpoint": fix, "capped": s.capped, "per_depth_new_states": s.per_depth_states}));
+        total.add(&s);
+    }
+    let mut cov = total.coverage();
+    cov.insert("explorations".into(), json!(per));
+    cov.insert("fixpoint_reached_everywhere".into(), json!(fix_all));
+    cov.insert("actions_per_state".into(), json!(all_ops().len()));
+    let exhaustive = !total.capped;
+    ctx.finish(
+        Level::ModelChecking,
+        "breadth-first over all histories of access-controller calls (every method x every actor incl. roles the template does not allow and outsiders, proposal arguments from a 3-element alphabet, +1/+2 minute round updates) on the real engine; states merged by decoded controller substate + role rules + custody + clamped timer relation + harness ghost state; thorough tier runs until no new state appears; transition invariants I1-I3 checked on every transition; non-trivial = distinct states",
+        total.states,
+        exhaustive,
+        cov,
+        &[
+            "roles are single signature badges of four keys; proposals from {P1, P2} (+P1d as confirm argument)",
+            "clock moves in whole minutes from a minute-aligned start (the blueprint compares at minute precision)",
+            "recovery-badge supply and fee-vault balance are not part of the state fingerprint: the controller never reads them (only mint's duplicate-id check / the fee methods' own amount checks do)",
+            "quick tier is depth-bounded (not a fixpoint)",
+        ],
+    )
 }
